@@ -1,6 +1,7 @@
 package main
 
 import (
+	"bytes"
 	"errors"
 	"fmt"
 	"io"
@@ -141,7 +142,61 @@ func execMsgWrite(a []string) string {
 	return "ok " + strings.Join(parts, " ")
 }
 
+// countingReader counts what has been taken from it
+type countingReader struct {
+	r io.Reader
+	n int
+}
+
+func (c *countingReader) Read(p []byte) (int, error) {
+	n, err := c.r.Read(p)
+	c.n += n
+	return n, err
+}
+
+// msg.limit <size>: (1) a valid header announcing <size> bytes followed by five bytes: refused after the
+// header, or does the reader go on?  (2) a whole message with a payload of that size (when that is at most
+// 12 MiB): written and read back.
+func execMsgLimit(a []string) string {
+	size, _ := strconv.ParseUint(a[0], 10, 32)
+	h := qnet.Header{Magic: qnet.Magic, ID: 7, Size: uint32(size), Version: qnet.Version, Type: qnet.Call, Service: 1, Object: 1, Action: 100}
+	var hb bytes.Buffer
+	h.Write(&hb)
+	cr := &countingReader{r: bytes.NewReader(append(hb.Bytes(), 1, 2, 3, 4, 5))}
+	var m qnet.Message
+	err := m.Read(cr)
+	probe := "accepted"
+	if err != nil && cr.n == 28 {
+		probe = "refused"
+	}
+	rt := "roundtrip=skipped"
+	if size <= 12<<20 {
+		payload := make([]byte, size)
+		for i := range payload {
+			payload[i] = byte(i * 7)
+		}
+		msg := qnet.NewMessage(h, payload)
+		var wire bytes.Buffer
+		if err := msg.Write(&wire); err != nil {
+			rt = "roundtrip=unwritable"
+		} else {
+			var back qnet.Message
+			if err := back.Read(bytes.NewReader(wire.Bytes())); err != nil {
+				rt = "roundtrip=refused"
+			} else if !bytes.Equal(back.Payload, payload) || back.Header != msg.Header {
+				rt = "roundtrip=differs"
+			} else {
+				rt = "roundtrip=ok"
+			}
+		}
+	} else if probe == "refused" {
+		rt = "roundtrip=refused"
+	}
+	return probe + " " + rt
+}
+
 func init() {
+	executors["msg.limit"] = execMsgLimit
 	executors["msg.read"] = execMsgRead
 	executors["msg.write"] = execMsgWrite
 	runners["C01"] = runC01
@@ -282,6 +337,12 @@ func runC01(r *Rand, tier string, o *Out) {
 		n = 12000
 	}
 	o.Extra["max_payload"] = qnet.MaxPayloadSize
+	// the size limit itself: the largest payload that is accepted, the smallest that is refused
+	for _, sz := range []uint64{0, 1, uint64(qnet.MaxPayloadSize) - 1, uint64(qnet.MaxPayloadSize), uint64(qnet.MaxPayloadSize) + 1,
+		uint64(qnet.MaxPayloadSize) + 2, 12 << 20, 1 << 31, 1<<32 - 1} {
+		o.Do("P", fmt.Sprintf("msg.limit %d", sz), true)
+		o.Count("limit-boundary")
+	}
 	for i := 0; i < n; i++ {
 		switch {
 		case i%5 == 4:
